@@ -63,7 +63,7 @@ class GenericScheduler(OpSource):
         legal = lo if (lo is not None and lo.any()) else hi
         if ad.mask_mode is None or legal is None:
             if name in ("SURVIVE", "COMPLETE", "COLLIDE"):
-                a = getattr(ad, "policy_" + name.lower())(rec.state, env, rng, envmask)
+                a = ad.safe_policy(name.lower(), rec.state, env, rng, envmask)
                 if a is not None:
                     return a, False
             return ad.inspec_action(env, rng), False
@@ -89,7 +89,7 @@ class GenericScheduler(OpSource):
                 return ad.pick(bad, rng)
             return ad.pick(legal, rng)
         if name in ("SURVIVE", "COMPLETE", "COLLIDE"):
-            a = getattr(ad, "policy_" + name.lower())(rec.state, env, rng, legal)
+            a = ad.safe_policy(name.lower(), rec.state, env, rng, legal)
             if a is not None:
                 return a, False
         return ad.pick(legal, rng)
